@@ -9,7 +9,7 @@ BASELINE_OFF = ("cmake -G Ninja -B /repo/_build -S /repo >/dev/null && cmake --b
 
 # id -> dict(level, text, note, technique)
 # properties whose check is built, validated (3 seeds silent, mutants caught) and claimed
-READY = ["C02", "C03", "C04", "C05", "C07", "C08", "C09", "C10", "C11", "C12"]
+READY = ["C02", "C03", "C04", "C05", "C07", "C08", "C09", "C10", "C11", "C12", "C15", "C16", "C17"]
 
 CHECKS = {
     "C02": dict(
@@ -113,6 +113,39 @@ CHECKS = {
              "per-key linearizability checking (reads overlapping a write or an expiry instant accept either side). plain+asan histories, tsan for the concurrent part.",
         note="Convention checked: expired iff now >= expiry (what every read path in kvstore.hpp implements); model resolution 1 ms; wall-clock jumps inside a single API call and 100 MiB values are out of reach.",
         technique="runtime monitoring: reference-model differential after every step under a controlled wall clock + per-key linearizability checking, ASan/TSan"),
+    "C15": dict(
+        level="exploration",
+        text="A Python generator with its own HTTP/1.1 encoder (header sets, bodies 0..cap, every chunk-size pattern with extensions and trailers, interim 1xx, close-delimited bodies, "
+             "pipelines; a hostile dictionary of invalid lengths, unsupported codings, over-cap headers and floods; mutated streams) is the ground truth. Streams are fed to the real HttpServer "
+             "in-process through the protected handleIncomingData on sessions primed through a real connection — at EVERY single cut point and random multi-cuts — and over loopback from a raw "
+             "socket; responses are played to a real HttpClient by a scripted raw-socket server (plus direct frameResponse calls in an optional build). Python compares what handlers / callers "
+             "received with the generator's message list and across segmentations; a per-call CPU-time watchdog (isolated re-run) detects non-termination, exceptions escaping the data path are "
+             "caught at a harness frame, a counting operator new measures buffered memory against the caps, and invalid length information must be rejected, never framed. plain+asan (quick), +tsan (thorough).",
+        note="Loopback segment boundaries are paced/forced by short reads, exact cuts are in the in-process modes. The client memory bound uses a 2 MiB cap (HttpClient 1 MiB + transport sync buffer 1 MiB). "
+             "Not judged: duplicate non-length header fields, HTTP/1.0 requests, ordering between pipelined requests (C16).",
+        technique="runtime monitoring: generator-as-oracle differential over all single cut points, CPU-time and allocation monitors, ASan/UBSan/TSan"),
+    "C16": dict(
+        level="exploration",
+        text="A real HttpServer (routes with handlers that sleep 0-20 ms, throw, return 204/304, large bodies, HEAD/OPTIONS/404/405) is driven by raw-socket clients over 1-32 concurrent "
+             "connections with sequential and pipelined (2-16 deep) request sequences, each request carrying a unique token echoed in a header and the body, malformed requests at random "
+             "pipeline positions, five spellings of Connection: close, slow readers and a capped server send() (short writes). The whole byte stream of every connection is recorded with EOF "
+             "timing and split by an independent Python response framer; responses are matched to requests by position and token: count, order, no interleaving, Content-Length == body, "
+             "HEAD without body, 500 on throw, error-or-close on unparsable input, close after Connection: close and completeness before EOF. plain+tsan (quick), +asan (thorough).",
+        note="Time-bounded verdicts (silence, missing EOF) are re-run alone with doubled bounds and count only if reproduced. The 503 overload path (>1000 queued requests) is not driven. "
+             "One open known finding (close drops the unsent tail of a response larger than the socket buffer).",
+        technique="runtime monitoring: wire capture + independent response framer + token matching over pipelined/concurrent connections, short-write injection, TSan/ASan"),
+    "C17": dict(
+        level="fault_enumeration",
+        text="The case space (method incl. lower-case/extension tokens x retry budget x fault kind x fault position x attempt at which the fault stops, kept-alive sequences with the fault on "
+             "the 2nd/3rd request, idle-connection events, 2-8 concurrent callers) is enumerated in Python; each case runs a fresh real HttpClient against a scripted raw-socket server that logs "
+             "every received byte and executes the fault (refuse, black hole, RST before/after k request bytes, close/half-close/RST/silence after k response bytes, 20 malformed-response classes, "
+             "Connection: close variants, surplus bytes now or later, close-delimited body). The judge uses logical facts only — bytes attributed by the token a reference framer finds in each "
+             "connection's send() stream, attempts counted by back-off sleeps, ordering from intercepted syscalls: non-idempotent at most one transmission, at most budget+1 attempts, no retry "
+             "after a fully read malformed response, no reuse of a connection that saw a failure/close signal/surplus bytes, silent peers abandoned within the timeout. Quick samples every sub-space "
+             "(boundary-biased); thorough enumerates them (every byte offset of request and response for representative requests) on plain+asan+tsan.",
+        note="PUT/PATCH/extension methods have no public entry point and are reached through performRequest via explicit template instantiation. The 'waited beyond timeout' rule adds measured scheduling noise "
+             "and must reproduce three times in isolation. HTTPS exchanges are covered by C07, not here.",
+        technique="fault enumeration with a scripted server as observer: per-connection byte logs + syscall-order interposers, rules over logical facts"),
 }
 
 NOT_YET = {}
